@@ -12,6 +12,8 @@ import (
 	"log"
 	"math/rand"
 	"os"
+	"path/filepath"
+	"runtime"
 	"runtime/metrics"
 	"sort"
 	"strconv"
@@ -57,8 +59,27 @@ func safeRun(p *Prop, c string) string {
 	case o := <-ch:
 		return o
 	case <-time.After(caseTimeout):
+		dumpStacks(c)
 		return "HANG"
 	}
+}
+
+// dumpStacks writes the stacks of all goroutines next to the store files when a case exceeds its time limit, so that a
+// hang can be told apart afterwards (a lock cycle in the code under test, a request waiting for its time-out, a stalled
+// machine): VERIF_HANGDIR overrides the directory.
+func dumpStacks(c string) {
+	dir := os.Getenv("VERIF_HANGDIR")
+	if dir == "" {
+		dir = os.TempDir()
+	}
+	buf := make([]byte, 64<<20)
+	n := runtime.Stack(buf, true)
+	if len(c) > 2000 {
+		c = c[:2000]
+	}
+	f := filepath.Join(dir, fmt.Sprintf("siot-verif-hang-%d-%d.txt", os.Getpid(), time.Now().UnixNano()))
+	_ = os.WriteFile(f, append([]byte("case: "+c+"\n\n"), buf[:n]...), 0o644)
+	fmt.Fprintln(os.Stderr, "case exceeded its time limit; goroutine stacks in", f)
 }
 
 var caseTimeout = 10 * time.Second
